@@ -303,6 +303,7 @@ def expected_debug(ex, R, st, ty_text, name, ctx, strings, used):
         if d is not None:
             return d
     if t in ("Span", AST + "Span", "ast::Span"):
+        ex.fmt_spans.add(name)
         return "_"
     if re.match(r"^e\.Closure\.0\.e\d+\.0$", name):
         # closure parameters are built by the parser from bare names: never `mut`, type `_` (inferred), no default
@@ -456,6 +457,8 @@ def classes_of(P, R, fname, ty, kind, als, bound, arms=None):
             c = {"arm": vname, "fn": fname, "kind": kind, "text": text, "pc": list(o.pc), "ex": ex}
             used = set()
             ex.fmt_variants = set()
+            if not hasattr(ex, "fmt_spans"):
+                ex.fmt_spans = set()
             try:
                 # literals reach the expression view wrapped in Expr::Literal
                 d = expected_debug(ex, R, o.state, ty, "e", None, strings, used)
@@ -585,10 +588,11 @@ def role_atom(name):
 
 
 # ---- obligations -----------------------------------------------------------------------------------------------------------------
-def fmt_obligation(P, R, mp, log_dir, oid, fname, ty, kind, als, bound, skip_arms=()):
-    statement = (f"Formatter::{fname}: for every class of node (variant x optional parts x list lengths x operator), the text the printer writes - "
+def fmt_obligation(P, R, mp, log_dir, oid, fname, ty, kind, als, bound, skip_arms=(), idem=False):
+    statement = ("IDEMPOTENCE, per node: " if idem else "") + (f"Formatter::{fname}: for every class of node (variant x optional parts x list lengths x operator), the text the printer writes - "
                  "children as atoms, the real FormatWriter code on a concrete writer state - is parsed by the real lexer + parser back to that class's own "
-                 "AST (span-free Debug equality); a field the printer never examines is a deviation")
+                 "AST (span-free Debug equality); a field the printer never examines is a deviation" +
+                 ("; and the printer never reads a source position (Span) - so formatting the re-parsed output prints the same text again: fmt(fmt(x)) = fmt(x)" if idem else ""))
 
     def run():
         t0 = time.time()
@@ -631,6 +635,13 @@ def fmt_obligation(P, R, mp, log_dir, oid, fname, ty, kind, als, bound, skip_arm
                 devs.append((c, f"{c['arm']}: printed text does not parse: {got and got[1][:160]} -- text `{c['text'][:120]}`"))
             elif got[1] != c["expected"]:
                 devs.append((c, f"{c['arm']}: printed text `{c['text'][:100]}` parses to {got[1][:200]}, the node is {c['expected'][:200]}"))
+        if idem:
+            for c in live:
+                decls = c["ex"].enc.decls
+                for sn in getattr(c["ex"], "fmt_spans", ()):
+                    if any(d.startswith(f"(declare-const {sn}.") or d.startswith(f"(declare-const {sn}!") for d in decls):
+                        devs.append((c, f"{c['arm']}: the printed text depends on the source position `{sn}`"))
+                        break
         r.update(classes=len(classes), classes_checked=len(live), classes_excluded_by_grammar=excluded, compositions=per_arm,
                  samples_tokens=[f"{c['arm']}: {c['text'][:70]!r}" for c in live[:: max(1, len(live) // 12)]][:14])
         r["wall_s"] = round(time.time() - t0, 2)
@@ -664,7 +675,7 @@ def native_fmt(r, devs, log_dir, fname):
             if fname not in fns or not (set(ent["arms"]) & set(arms)):
                 continue
             st, rest = res.get(name, ("MISSING", ""))
-            if st != "SAME":
+            if st != "SAME" or (r["id"].startswith("I-") and ("NONIDEM" in rest or "CHECK-DISAGREES" in rest)):
                 broken.setdefault(name, []).append(f"[{prof}] {st}{rest[:240]}")
     r["native"] = "; ".join(f"{k}: {v[0]}" for k, v in list(broken.items())[:4]) or \
         f"all example sentences of arm(s) {arms} survive text -> parse -> format -> parse"
@@ -690,7 +701,18 @@ def build(pid, P, R, tier, log_dir):
     if pid not in ("C08", "C09"):
         return obs
     bound = 2 if tier == "quick" else 3
+    if pid in ("C08", "C09"):
+        obs.append(writer_obligation(P, R, mp, log_dir))
+    if pid == "C09":
+        for (tag, fname, ty, kind, als) in TARGETS:
+            if tag == "literal":
+                continue
+            obs.append(fmt_obligation(P, R, mp, log_dir, "I-fmt-" + tag, fname, ty, kind, als, bound, idem=True))
+        obs.append(fmt_obligation(P, R, mp, log_dir, "I-fmt-method", "format_method", AST + "MethodDecl", "method", True, 2, idem=True))
+        obs.append(fmt_obligation(P, R, mp, log_dir, "I-fmt-decl", "format_declaration", AST + "Declaration", "decl", True, 2,
+                                  skip_arms=("Import", "Docstring"), idem=True))
     if pid == "C08":
+        obs.append(escape_obligation(P, R, mp, log_dir))
         obs.append(fmt_obligation(P, R, mp, log_dir, "F-fmt-expr", "format_expr", AST + "Expr", "expr", False, bound))
         obs.append(fmt_obligation(P, R, mp, log_dir, "F-fmt-literal", "format_literal", AST + "Literal", "expr", False, bound, skip_arms=("Bytes",)))
         obs.append(fmt_obligation(P, R, mp, log_dir, "F-fmt-pattern", "format_pattern", AST + "Pattern", "pattern", False, bound))
@@ -703,3 +725,296 @@ def build(pid, P, R, tier, log_dir):
         obs.append(fmt_obligation(P, R, mp, log_dir, "F-fmt-decl", "format_declaration", AST + "Declaration", "decl", True, 2,
                                   skip_arms=("Import", "Docstring")))
     return obs
+
+
+# ---- the writer: one step from an arbitrary state ---------------------------------------------------------------------------------
+def writer_obligation(P, R, mp, log_dir):
+    statement = ("FormatWriter, one step from an ARBITRARY state (indent level, width, at-line-start flag symbolic): write_indent emits exactly "
+                 "`\" \".repeat(indent_level * indent_width)` iff at the start of a line and clears the flag; write(s) emits nothing for \"\" and otherwise the "
+                 "indentation (if due) followed by s; newline emits '\\n' and sets the flag; indent / dedent change the level by exactly one (dedent saturating at 0); "
+                 "no arithmetic panic for levels below 2^20")
+
+    def run():
+        t0 = time.time()
+        r = {"id": "F-writer", "engine": "E2-X mirsmt", "statement": statement,
+             "bound": "indent_level < 2^20, 1 <= indent_width <= 64, both symbolic; the written string is an atom (non-empty or empty)",
+             "encoding": "writer struct with symbolic scalar fields; String::push_str / push / str::repeat as events"}
+        encoded, bad, npaths, queries = set(), [], 0, 0
+
+        def fresh():
+            ex = make_executor(P, R, 1, True)
+            lvl = ex.sym_value("usize", "lvl")
+            wid = ex.sym_value("usize", "wid")
+            als = ex.enc.bool_var("als")
+            ex.enc.side.append(f"(and (< {lvl.term} 1048576) (>= {wid.term} 1) (<= {wid.term} 64))")
+            cfg = Adt("FormatConfig", None, [("indent_width", wid), ("line_length", S("int", "120")), ("quote_style", Adt("QuoteStyle", "Double", [])),
+                                             ("trailing_commas", S("bool", "true")), ("blank_lines_top_level", S("int", "2")), ("blank_lines_methods", S("int", "1"))])
+            w = Adt("FormatWriter", None, [("output", Opaque("out")), ("indent_level", lvl), ("config", cfg), ("at_line_start", als),
+                                           ("current_line_length", S("int", "0"))])
+            st0 = symex.State()
+            st0.store[0] = {"_w": w}
+            return ex, st0, symex.Ref(0, Place("_w")), lvl, wid, als
+
+        def final(o):
+            w = o.state.store[0]["_w"]
+            f = dict((n, v) for n, v in w.fields)
+            return f["indent_level"].term, f["at_line_start"].term
+
+        def indent_event(lvl, wid):
+            return ("OUT", f'opaque<repeat(opaque<const " ">,(* {lvl.term} {wid.term}))>')
+
+        pending = []
+
+        def ask(ex, pc, goal_neg, what):
+            nonlocal queries
+            queries += 1
+            pending.append((ex, symex.conj(pc + [goal_neg]), what))
+
+        def flush():
+            by_ex = {}
+            for ex_, q_, what in pending:
+                by_ex.setdefault(id(ex_), (ex_, []))[1].append((q_, what))
+            for ex_, items in by_ex.values():
+                res = solver.check_many(mp.smt_lines(ex_, []), [[q_] for q_, _ in items], "z3", 300)
+                for (q_, what), r_ in zip(items, res):
+                    if r_ != "unsat":
+                        bad.append(what + f" [{r_}]")
+            pending.clear()
+
+        def feasible(ex, pc):
+            nonlocal queries
+            queries += 1
+            return solver.check(mp.smt_lines(ex, [symex.conj(pc)]), [], "z3", 60).status != "unsat"
+
+        def norm_events(evs, lvl, wid):
+            """output events with the indentation argument normalised: (* lvl wid) in either operand order"""
+            out = []
+            for e in evs:
+                if e[0] != "OUT":
+                    continue
+                m = re.match(r'^opaque<repeat\(opaque<const " ">,(.*)\)>$', e[1])
+                out.append(("INDENT", m.group(1)) if m else ("TEXT", e[1]))
+            return out
+
+        for fname, argkind in (("write_indent", None), ("write", "nonempty"), ("write", "empty"), ("newline", None), ("indent", None), ("dedent", None)):
+            ex, st0, wref, lvl, wid, als = fresh()
+            f = find_fn(P, ">::" + fname, ("writer::",))
+            args = [wref]
+            if argkind == "nonempty":
+                args.append(Opaque('const "S"'))
+            elif argkind == "empty":
+                args.append(Opaque('const ""'))
+            outs = ex.run(f, args, state=st0)
+            encoded |= set(ex.encoded)
+            for o in outs:
+                if not feasible(ex, o.pc):
+                    continue
+                npaths += 1
+                tag = f"{fname}({argkind or ''})"
+                if o.kind != "return":
+                    bad.append(f"{tag}: {o.kind}: {o.info}")
+                    continue
+                evs = norm_events(o.state.events, lvl, wid)
+                lv2, als2 = final(o)
+                want_same_level = fname not in ("indent", "dedent")
+                if want_same_level:
+                    ask(ex, o.pc, f"(not (= {lv2} {lvl.term}))", f"{tag}: indent level changes")
+                if fname == "indent":
+                    ask(ex, o.pc, f"(not (= {lv2} (+ {lvl.term} 1)))", f"{tag}: level is not level + 1")
+                if fname == "dedent":
+                    ask(ex, o.pc, f"(not (= {lv2} (ite (> {lvl.term} 0) (- {lvl.term} 1) 0)))", f"{tag}: level is not max(level - 1, 0)")
+                if fname in ("indent", "dedent"):
+                    if evs:
+                        bad.append(f"{tag}: writes output {evs}")
+                    ask(ex, o.pc, f"(not (= {als2} {als.term}))", f"{tag}: at-line-start flag changes")
+                    continue
+                if fname == "newline":
+                    if evs != [("TEXT", "opaque<const '\\n'>")]:
+                        bad.append(f"{tag}: output is {evs}, documented: one newline")
+                    ask(ex, o.pc, f"(not {als2})", f"{tag}: at-line-start flag not set")
+                    continue
+                if argkind == "empty":
+                    if evs:
+                        bad.append(f"{tag}: writes {evs} for the empty string")
+                    ask(ex, o.pc, f"(not (= {als2} {als.term}))", f"{tag}: flag changes for the empty string")
+                    continue
+                # write_indent / write(non-empty): indentation exactly when at line start
+                text = [("TEXT", 'opaque<const "S">')] if fname == "write" else []
+                ind = [e for e in evs if e[0] == "INDENT"]
+                rest = [e for e in evs if e[0] != "INDENT"]
+                if rest != text or len(ind) > 1 or (ind and evs[0][0] != "INDENT"):
+                    bad.append(f"{tag}: output is {evs}, documented: [indentation] + {text}")
+                    continue
+                if ind:
+                    ask(ex, o.pc, f"(not {als.term})", f"{tag}: indentation written although not at the start of a line")
+                    ask(ex, o.pc, f"(not (= {ind[0][1]} (* {lvl.term} {wid.term})))", f"{tag}: indentation is {ind[0][1]} columns, documented level * width")
+                else:
+                    ask(ex, o.pc, als.term, f"{tag}: no indentation written at the start of a line")
+                ask(ex, o.pc, als2, f"{tag}: at-line-start flag still set after writing")
+        flush()
+        r.update(functions_encoded=sorted(n + " (MIR)" for n in encoded), paths=npaths, queries=queries, wall_s=round(time.time() - t0, 2))
+        if npaths < 8:
+            r.update(status="inconclusive", reason=f"only {npaths} feasible paths explored (vacuity)")
+            return r
+        r["vacuity_ok"] = True
+        if not bad:
+            r.update(status="held", solver=f"{queries} z3 queries: all unsat / all paths as documented")
+            return r
+        # native confirmation: the deep-nesting and the ordinary statement sentences
+        broken = {}
+        for prof in ("dev", "release"):
+            bat, res = run_fmtrt(log_dir, prof)
+            for name in bat:
+                st, rest = res.get(name, ("MISSING", ""))
+                if st != "SAME" or "NONIDEM" in rest:
+                    broken.setdefault(name, []).append(f"[{prof}] {st}{rest[:200]}")
+        r["native"] = "; ".join(f"{k}: {v[0]}" for k, v in list(broken.items())[:4]) or "every example sentence (incl. 20-level nesting) round-trips"
+        why = "; ".join(bad[:4])
+        if broken:
+            os.makedirs(os.path.join(common.REPLAYS_DIR, "MIRX"), exist_ok=True)
+            rp = os.path.join(common.REPLAYS_DIR, "MIRX", "F-writer.replay")
+            with open(rp, "w") as fh:
+                fh.write(f"mirx fmtrt {' '.join(sorted(broken))}\n# {statement[:300]}\n# solver: {why[:600]}\n# native: {r['native'][:600]}\n")
+            r.update(status="violated", replay=rp, counterexample={"path": why[:600], "native": r["native"][:600]})
+        else:
+            r.update(status="inconclusive", reason=f"the writer deviates ({why[:400]}) but every example sentence round-trips")
+        return r
+    return mp.XOb("F-writer", statement, "", run)
+
+
+# ---- string escaping: one character at a time -------------------------------------------------------------------------------------
+ESCAPES = {10: '\\\\n', 13: '\\\\r', 9: '\\\\t', 92: '\\\\\\\\', 34: '\\\\\\"'}     # code point -> the Rust-literal spelling of what is pushed
+
+
+def escape_obligation(P, R, mp, log_dir):
+    statement = ("escape_string (string literals): the text is traversed by Unicode scalar (`chars()`), and each scalar contributes exactly: `\\n` `\\r` `\\t` `\\\\` `\\\"` "
+                 "for newline, carriage return, tab, backslash, double quote - and ITSELF, unchanged, otherwise (so that the lexer's unescaping gives the value back)")
+
+    def run():
+        t0 = time.time()
+        r = {"id": "F-escape", "engine": "E2-X mirsmt", "statement": statement,
+             "bound": "strings of 0..=2 scalars, each an arbitrary code point 0..=0x10FFFF (symbolic); the per-scalar rule makes longer strings the same step repeated",
+             "encoding": "Chars::next as a fork into end-of-string / one more symbolic scalar; String::push / push_str as events"}
+        f = [v for k, v in P.fns.items() if re.search(r"(^|::)escape_string$", k)]
+        if len(f) != 1:
+            raise Inconclusive("escape_string not found (or ambiguous) in the MIR dump")
+        ex = make_executor(P, R, 1, False)
+        del ex.state_intrinsics[r"(^|::)escape_string$"]
+        chars = []
+
+        class CharIter(symex.Val):
+            def __init__(self, pos):
+                self.pos = pos
+
+            def __repr__(self):
+                return f"chars@{self.pos}"
+
+        def st_chars(ex_, callee, args, st):
+            return [("return", CharIter(0), None, st)]
+
+        def st_ident(ex_, callee, args, st):
+            return [("return", ex_.deref(args[0], st), None, st)]
+
+        def st_next(ex_, callee, args, st):
+            ref = args[0]
+            it = ex_.deref(ref, st)
+            if not isinstance(it, CharIter):
+                raise Unsupported(f"next on {it!r}")
+            res = [("return", Adt("Option", "None", []), None, st)]
+            if it.pos < 2:
+                while len(chars) <= it.pos:
+                    c = ex_.sym_value("u32", f"ch{len(chars)}")
+                    ex_.enc.side.append(f"(<= {c.term} 1114111)")
+                    chars.append(c)
+                st2 = st.fork()
+                ex_._store(ref.frame, ref.place, CharIter(it.pos + 1), st2)
+                st2.events.append(("CHAR", it.pos))
+                res.append(("return", Adt("Option", "Some", [chars[it.pos]]), None, st2))
+            return res
+        ex.state_intrinsics = dict(ex.state_intrinsics)
+        ex.state_intrinsics[r"str>::chars$"] = st_chars
+        ex.state_intrinsics[r"^<(std::str::)?Chars<.*> as (std::iter::)?IntoIterator>::into_iter$"] = st_ident
+        ex.state_intrinsics[r"^<(std::str::)?Chars<.*> as (std::iter::)?Iterator>::next$"] = st_next
+        ex.state_intrinsics[r"(^|::)String::new$"] = lambda ex_, callee, args, st: [("return", Opaque("res"), None, st)]
+        # put the specific handlers first (the generic IntoIterator pattern of the base table would shadow them)
+        order = [r"str>::chars$", r"^<(std::str::)?Chars<.*> as (std::iter::)?IntoIterator>::into_iter$",
+                 r"^<(std::str::)?Chars<.*> as (std::iter::)?Iterator>::next$", r"(^|::)String::new$"]
+        ex.state_intrinsics = {**{k: ex.state_intrinsics[k] for k in order}, **{k: v for k, v in ex.state_intrinsics.items() if k not in order}}
+        try:
+            outs = ex.run(f[0], [Opaque("s")])
+        except (Unsupported, symex.PathExplosion) as x:
+            outs, err = [], str(x)
+        r["functions_encoded"] = [n + " (MIR)" for n in ex.encoded]
+        bad, queries, npaths = [], 0, 0
+        if not outs:
+            bad.append(f"the traversal is not `for c in s.chars()` over push / push_str any more: {locals().get('err', 'no path')}")
+        feas = solver.check_many(mp.smt_lines(ex, []), [[symex.conj(o.pc)] for o in outs], "z3", 300)
+        queries += len(outs)
+        later = []
+        for o, fz in zip(outs, feas):
+            if fz == "unsat":
+                continue
+            npaths += 1
+            if o.kind != "return":
+                bad.append(f"{o.kind}: {o.info}")
+                continue
+            evs = o.state.events
+            # split events per character
+            per, cur = [], None
+            for e in evs:
+                if e[0] == "CHAR":
+                    cur = []
+                    per.append((e[1], cur))
+                elif e[0] == "OUT":
+                    if cur is None:
+                        bad.append(f"output {e[1]} before the first scalar")
+                    else:
+                        cur.append(e[1])
+            for k, outs_k in per:
+                c = chars[k].term
+                if len(outs_k) != 1:
+                    bad.append(f"scalar #{k} contributes {len(outs_k)} pieces {outs_k}")
+                    continue
+                piece = outs_k[0]
+                if piece == c:
+                    cond = "(or " + " ".join(f"(= {c} {cp})" for cp in ESCAPES) + ")"       # must not be a special scalar
+                    what = f"scalar #{k} pushed unchanged although it needs an escape"
+                else:
+                    cp = next((cp for cp, lit in ESCAPES.items() if piece == f'opaque<const "{lit}">'), None)
+                    if cp is None:
+                        bad.append(f"scalar #{k} contributes {piece}, which is neither the scalar itself nor a documented escape")
+                        continue
+                    cond = f"(not (= {c} {cp}))"
+                    what = f"scalar #{k}: escape {piece} written for another scalar"
+                later.append((symex.conj(o.pc + [cond]), what))
+        for (q_, what), r_ in zip(later, solver.check_many(mp.smt_lines(ex, []), [[q_] for q_, _ in later], "z3", 300)):
+            queries += 1
+            if r_ != "unsat":
+                bad.append(f"{what} [{r_}]")
+        r.update(paths=npaths, queries=queries, wall_s=round(time.time() - t0, 2))
+        if not bad and npaths < 20:
+            r.update(status="inconclusive", reason=f"only {npaths} feasible paths (vacuity)")
+            return r
+        r["vacuity_ok"] = True
+        if not bad:
+            r.update(status="held", solver=f"{queries} z3 queries; every scalar contributes its documented piece on all {npaths} paths")
+            return r
+        broken = {}
+        for prof in ("dev", "release"):
+            bat, res = run_fmtrt(log_dir, prof)
+            for name in ("string_escapes", "literals", "patterns"):
+                st, rest = res.get(name, ("MISSING", ""))
+                if st != "SAME":
+                    broken.setdefault(name, []).append(f"[{prof}] {st}{rest[:240]}")
+        why = "; ".join(bad[:4])
+        r["native"] = "; ".join(f"{k}: {v[0]}" for k, v in broken.items()) or "the string-literal example sentences round-trip"
+        if broken:
+            os.makedirs(os.path.join(common.REPLAYS_DIR, "MIRX"), exist_ok=True)
+            rp = os.path.join(common.REPLAYS_DIR, "MIRX", "F-escape.replay")
+            with open(rp, "w") as fh:
+                fh.write(f"mirx fmtrt {' '.join(sorted(broken))}\n# {statement[:300]}\n# solver: {why[:600]}\n# native: {r['native'][:600]}\n")
+            r.update(status="violated", replay=rp, counterexample={"path": why[:600], "native": r["native"][:600]})
+        else:
+            r.update(status="inconclusive", reason=f"escape_string deviates ({why[:400]}) but the string-literal example sentences round-trip")
+        return r
+    return mp.XOb("F-escape", statement, "", run)
